@@ -65,7 +65,10 @@ def strategy_(draw, tier):
         })
     btypes = [draw(st.one_of(st.sampled_from([1, 2, 3, 4, 10, 10**20, 10**61, 10**62, 10**63, 10**64, 10**65, 10**66, 10**149]), st.integers(1, 12))) for _ in range(min(m, 8))]
     return {"mol": mol, "producer": producer, "order": draw(gens.perms(n)), "deco": deco, "btypes": btypes, "target": target,
-            "target_atom": draw(st.integers(0, max(0, n - 1)))}
+            "target_atom": draw(st.integers(0, max(0, n - 1))),
+            # history: a damaged copy of the written file is offered to the reader first (and
+            # rejected); the read-back of the intact file must not be affected by it
+            "poison": draw(st.sampled_from(["none", "none", "dangling_dash", "truncated", "bad_counts"])), "poison_line": draw(st.integers(0, 10**6))}
 
 
 def strategy(tier):
@@ -236,6 +239,22 @@ def check(case, stats):
         raise Violation("file-content", f"bond refers to unknown atom index {e}") from None
     if got_b != want_b:
         raise Violation("file-content", "bonds stated in the file differ from the graph's bonds/types")
+    # optional history: the reader first sees (and rejects) a damaged copy of the file
+    poison = case.get("poison", "none")
+    if poison != "none":
+        lines = text.split("\n")
+        j = 4 + case.get("poison_line", 0) % max(1, len(lines) - 5)
+        if poison == "dangling_dash":
+            bad = lines[:j] + [lines[j] + " -", "this line does not continue the previous one"] + lines[j + 1 :]
+        elif poison == "truncated":
+            bad = lines[:j]
+        else:
+            bad = [ln.replace("COUNTS ", "COUNTS 1") for ln in lines]
+        try:
+            graph_from_molfile_text("\n".join(bad))
+            stats.label("poison_accepted")
+        except Exception:  # noqa: BLE001 - whatever the reader does with damaged input is not judged here
+            stats.label("poison_rejected")
     # library read-back
     r = call("read-back", graph_from_molfile_text, text)
     if list(r.nodes) != list(range(n)):
